@@ -147,41 +147,6 @@ def _biopython_table_check(vectors):
                 raise core.MachineryFailure("codon table transcription in Dna.tla differs from Biopython for %s" % c)
 
 
-def check_signature(v):
-    """One state of spec/Signature.tla: mutation-type counts of the substitutions against the references."""
-    import bionumpy as bnp
-    from bionumpy.datatypes import Variant
-    from bionumpy.variants import count_mutation_types_genomic
-    from bionumpy.genomic_data.genome import Genome
-    from bionumpy.genomic_data.genomic_sequence import GenomicSequenceDict
-    L = "ACGTN"
-    refs = ["".join(L[x] for x in r) for r in v["refs"]]
-    names = ["chr%d" % (i + 1) for i in range(len(refs))]
-    snps = v["snps"]
-    flank = v["flank"]
-
-    def label(t):
-        ctx, alt = t
-        return "".join(L[x] for x in ctx[:flank]) + "[" + L[ctx[flank]] + ">" + L[alt] + "]" + "".join(L[x] for x in ctx[flank + 1:])
-    want = {label(t): c for t, c in v["counts"]}
-
-    def run_():
-        # the substitutions are given in genome order (as a VCF would list them)
-        order = sorted(range(len(snps)), key=lambda i: (snps[i][0], snps[i][1]))
-        var = Variant([names[snps[i][0] - 1] for i in order], [snps[i][1] for i in order],
-                      [refs[snps[i][0] - 1][snps[i][1]] for i in order], [L[snps[i][2]] for i in order])
-        loc = Genome({nm: len(r) for nm, r in zip(names, refs)}).get_locations(var)
-        counts = count_mutation_types_genomic(loc, GenomicSequenceDict(dict(zip(names, refs))), flank=flank)
-        return {str(lab): int(c) for lab, c in zip(counts.alphabet, np.asarray(counts.counts).ravel().tolist()) if c}
-    bad = []
-    if snps:
-        o = outcome(run_)
-        if o != ("ok", want):
-            bad.append({"what": "mutation-type counts differ from the types of the substitutions", "tags": {"op": "mutation-types", "encoding": "ACGTN", "flank": flank},
-                        "group": {"op": "mutation-types"}, "vectors": [v], "expected": want, "observed": o})
-    return {"n": 1 if snps else 0, "nt": [json.dumps(["sig", v["refs"], snps])] if len(snps) > 1 else [], "bad": bad}
-
-
 def run(ctx):
     quick = ctx.tier == "quick"
     alpha = ["A", "C", "G", "T", "N", "a", "c", "g", "t", "n"]
@@ -215,13 +180,6 @@ def run(ctx):
     ctx.sample({k: seqv[57][k] for k in ("s", "rc")})
     ctx.sample(codv[100])
     ctx.absorb(core.pmap(check_group, groups, chunk=4))
-    # mutation types of substitutions in their sequence context (spec/Signature.tla; beyond the listed clauses, built on RevComp)
-    for refs, flank, ms in (("R1", 1, 2), ("R2", 1, 2), ("R1", 2, 2)) if quick else (("R1", 1, 3), ("R2", 1, 3), ("R1", 2, 3), ("R2", 2, 2)):
-        res = ctx.tlc("MC_Signature", tag="MC_Signature_%s_%d" % (refs, flank), spec="Spec", workers=4,
-                      constants={"Refs": "<- " + refs, "Flank": flank, "MaxSnps": ms},
-                      invariants=["PyrimidineMiddle", "Total", "StrandSymmetric", "Emit"], coverage=True)
-        ctx.require_actions(res, "MC_Signature", ["Add"])
-        ctx.absorb(core.pmap(check_signature, res.vectors, chunk=50))
     ctx.exhaustive = True
     return ctx.finish(RULE, assumptions=[
         "letters are compared case-insensitively (alphabet encodings decode to upper case; the property fixes the letter, not its case)",
